@@ -13,14 +13,15 @@ SORTS = {"int": IntS, "bool": BoolS, "bytes": BytesS, "list:bytes": LBytesS, "li
 UF_SPECS = {}   # decl name -> (python function, sig)
 
 
-def uf(sig):
-    """Decorator for recursive spec functions: sig = 'bytes,int -> int'."""
+def uf(sig, unfold=True):
+    """Decorator for spec functions that appear as uninterpreted symbols: sig = 'bytes,int -> int'.
+    unfold=False: never unfolded (the body is only the native meaning, e.g. group operations)."""
     args, ret = sig.split("->")
     argt = [a.strip() for a in args.split(",") if a.strip()]
     rett = ret.strip()
 
     def deco(f):
-        f.__pyvc__ = {"kind": "uf", "args": argt, "ret": rett}
+        f.__pyvc__ = {"kind": "uf", "args": argt, "ret": rett, "unfold": unfold}
         return f
     return deco
 
@@ -101,6 +102,8 @@ def unfold_rules(thm):
         if ent is None:
             return []
         f, sp = ent
+        if not sp.get("unfold", True):
+            return []
         ck = t.sexpr()
         hit = _UNFOLD_CACHE.get(ck)
         if hit is not None:
@@ -120,8 +123,9 @@ def unfold_rules(thm):
 
         out = []
         try:
-            paths = engine.explore(run, opts={"unfolding": True})
+            paths = engine.explore(run, opts={"unfolding": True, "feas_ms": 200, "nla": False})
         except Unsupported:
+            _UNFOLD_CACHE[ck] = []
             return []
         for p in paths:
             if p.kind != "return":
